@@ -1075,11 +1075,11 @@ func (w *c01pWorld) step() {
 	qids := w.qids()
 	pids := w.pids()
 	if w.anyEligible() {
-		if r.Chance(1, 2) {
+		if r.Chance(2, 5) {
 			w.opMigrate()
 			return
 		}
-	} else if r.Chance(1, 40) {
+	} else if r.Chance(1, 80) {
 		w.opMigrate()
 		return
 	}
